@@ -1,48 +1,160 @@
 //! Simulator-owned counting wakers. Every poll gets its own cell, so "the latest waker of a
 //! waiter was invoked" is a statement about one cell.
+//!
+//! The vtable functions are *user code* from the library's point of view, and they are a scheduling
+//! seam: every `clone` / `wake` / `wake_by_ref` / `drop` calls the hook installed for the calling
+//! thread (if any). `reent` / `local-reent` install a hook that performs whole event operations
+//! re-entrantly; `mt` installs one that yields a few times to widen the window the callback sits in.
+//!
+//! The cell is kept alive by the harness (every `Rec` of a poll owns its `Arc<WakerCell>` until the
+//! verdict), not by the wakers: the vtable only counts. A library that released a waker twice is
+//! therefore reported by the accounting oracle (`waker-over-released`) instead of corrupting the
+//! harness's heap.
 
+use std::cell::Cell;
 use std::sync::Arc;
-use std::sync::atomic::{AtomicU32, Ordering};
+use std::sync::atomic::{AtomicBool, AtomicI32, AtomicU32, Ordering};
 use std::task::{RawWaker, RawWakerVTable, Waker};
+
+#[derive(Clone, Copy, Debug, PartialEq, Eq, serde::Serialize, serde::Deserialize)]
+pub enum CbKind {
+    /// `wake` and `wake_by_ref`.
+    Wake,
+    Clone,
+    Drop,
+}
+
+impl CbKind {
+    pub fn idx(self) -> usize {
+        match self {
+            CbKind::Wake => 0,
+            CbKind::Clone => 1,
+            CbKind::Drop => 2,
+        }
+    }
+    pub fn name(self) -> &'static str {
+        match self {
+            CbKind::Wake => "wake",
+            CbKind::Clone => "clone",
+            CbKind::Drop => "drop",
+        }
+    }
+}
 
 #[derive(Default)]
 pub struct WakerCell {
     pub clones: AtomicU32,
     pub drops: AtomicU32,
     pub wakes: AtomicU32,
+    /// Wakers alive over this cell: +1 `new_waker` / clone, -1 wake (by value) / drop.
+    pub live: AtomicI32,
+    /// Set when `live` went negative: some waker was released twice.
+    pub over: AtomicBool,
+    /// The poll this cell was made for is executing (set and cleared by the harness).
+    pub in_poll: AtomicBool,
+}
+
+impl WakerCell {
+    /// Wakers over this cell that have been created and not yet released.
+    pub fn alive(&self) -> i32 {
+        self.live.load(Ordering::Relaxed)
+    }
+    pub fn over_released(&self) -> bool {
+        self.over.load(Ordering::Relaxed)
+    }
+}
+
+/// Per-thread callback hook. `f(data, kind, cell)` is called from inside the vtable function.
+#[derive(Clone, Copy)]
+pub struct Hook {
+    pub data: *const (),
+    pub f: unsafe fn(*const (), CbKind, &WakerCell),
+}
+
+thread_local! {
+    static HOOK: Cell<Option<Hook>> = const { Cell::new(None) };
+}
+
+/// Installs `h` for the calling thread; returns the previous hook.
+pub fn set_hook(h: Option<Hook>) -> Option<Hook> {
+    HOOK.with(|c| c.replace(h))
+}
+
+/// Restores the previous hook when dropped (also on unwind: a library panic escaping a run must not
+/// leave a dangling hook behind).
+pub struct HookGuard(Option<Hook>);
+
+impl HookGuard {
+    pub fn install(h: Option<Hook>) -> Self {
+        HookGuard(set_hook(h))
+    }
+}
+
+impl Drop for HookGuard {
+    fn drop(&mut self) {
+        set_hook(self.0);
+    }
+}
+
+fn fire(kind: CbKind, c: &WakerCell) {
+    if let Some(h) = HOOK.with(Cell::get) {
+        // SAFETY: whoever installed the hook keeps `data` valid until it uninstalls it.
+        unsafe { (h.f)(h.data, kind, c) };
+    }
+}
+
+fn release(c: &WakerCell) {
+    if c.live.fetch_sub(1, Ordering::Relaxed) <= 0 {
+        c.over.store(true, Ordering::Relaxed);
+    }
 }
 
 static VTABLE: RawWakerVTable = RawWakerVTable::new(w_clone, w_wake, w_wake_by_ref, w_drop);
 
 unsafe fn w_clone(p: *const ()) -> RawWaker {
-    // SAFETY: p came from Arc::into_raw of an Arc<WakerCell> that is still alive.
+    // SAFETY: p is Arc::as_ptr of a cell the harness keeps alive until the verdict.
     let c = unsafe { &*p.cast::<WakerCell>() };
     c.clones.fetch_add(1, Ordering::Relaxed);
-    // SAFETY: as above; the count is incremented for the new RawWaker.
-    unsafe { Arc::increment_strong_count(p.cast::<WakerCell>()) };
+    c.live.fetch_add(1, Ordering::Relaxed);
+    fire(CbKind::Clone, c);
     RawWaker::new(p, &VTABLE)
 }
 
 unsafe fn w_wake(p: *const ()) {
-    // SAFETY: p came from Arc::into_raw; this consumes one reference.
-    let c = unsafe { Arc::from_raw(p.cast::<WakerCell>()) };
+    // SAFETY: as above.
+    let c = unsafe { &*p.cast::<WakerCell>() };
     c.wakes.fetch_add(1, Ordering::Relaxed);
+    fire(CbKind::Wake, c);
+    release(c);
 }
 
 unsafe fn w_wake_by_ref(p: *const ()) {
-    // SAFETY: p came from Arc::into_raw and is alive.
+    // SAFETY: as above.
     let c = unsafe { &*p.cast::<WakerCell>() };
     c.wakes.fetch_add(1, Ordering::Relaxed);
+    fire(CbKind::Wake, c);
 }
 
 unsafe fn w_drop(p: *const ()) {
-    // SAFETY: p came from Arc::into_raw; this consumes one reference.
-    let c = unsafe { Arc::from_raw(p.cast::<WakerCell>()) };
+    // SAFETY: as above.
+    let c = unsafe { &*p.cast::<WakerCell>() };
     c.drops.fetch_add(1, Ordering::Relaxed);
+    fire(CbKind::Drop, c);
+    release(c);
 }
 
 pub fn new_waker(c: &Arc<WakerCell>) -> Waker {
-    let p = Arc::into_raw(Arc::clone(c)).cast::<()>();
-    // SAFETY: the vtable functions uphold the RawWaker contract over an Arc<WakerCell>.
+    c.live.fetch_add(1, Ordering::Relaxed);
+    let p = Arc::as_ptr(c).cast::<()>();
+    // SAFETY: the vtable functions uphold the RawWaker contract; the cell outlives every waker made
+    // over it that is ever used (all futures are dropped before the records that own the cells).
     unsafe { Waker::from_raw(RawWaker::new(p, &VTABLE)) }
+}
+
+/// Drops the harness's own waker without running the callback hook (the hook stands for what the
+/// *library* makes user code do).
+pub fn drop_own(w: Waker) {
+    let prev = set_hook(None);
+    drop(w);
+    set_hook(prev);
 }
